@@ -1083,6 +1083,15 @@ func builtinSlice(i *Interpreter, args []Expr, env *Environment) (interface{}, e
 	return result, nil
 }
 
+// validateStatusCode rejects status codes net/http refuses to write
+// (WriteHeader panics outside 100-999, which would drop the connection).
+func validateStatusCode(fn string, code int) error {
+	if code < 100 || code > 599 {
+		return fmt.Errorf("%s() status code must be between 100 and 599, got %d", fn, code)
+	}
+	return nil
+}
+
 func builtinText(interp *Interpreter, args []Expr, env *Environment) (interface{}, error) {
 	if len(args) < 1 || len(args) > 2 {
 		return nil, fmt.Errorf("text() requires 1-2 arguments: text(body) or text(body, statusCode)")
@@ -1110,6 +1119,9 @@ func builtinText(interp *Interpreter, args []Expr, env *Environment) (interface{
 			statusCode = int(v)
 		default:
 			return nil, fmt.Errorf("text() second argument must be an integer status code, got %T", codeVal)
+		}
+		if err := validateStatusCode("text", statusCode); err != nil {
+			return nil, err
 		}
 	}
 	return &TextResponse{Body: bodyStr, StatusCode: statusCode}, nil
@@ -1142,6 +1154,9 @@ func builtinHTML(interp *Interpreter, args []Expr, env *Environment) (interface{
 			statusCode = int(v)
 		default:
 			return nil, fmt.Errorf("html() second argument must be an integer status code, got %T", codeVal)
+		}
+		if err := validateStatusCode("html", statusCode); err != nil {
+			return nil, err
 		}
 	}
 	return &HTMLResponse{Body: bodyStr, StatusCode: statusCode}, nil
@@ -1190,6 +1205,9 @@ func builtinBlob(interp *Interpreter, args []Expr, env *Environment) (interface{
 			statusCode = int(v)
 		default:
 			return nil, fmt.Errorf("blob() third argument must be an integer status code, got %T", codeVal)
+		}
+		if err := validateStatusCode("blob", statusCode); err != nil {
+			return nil, err
 		}
 	}
 	return &BlobResponse{Data: data, ContentType: contentType, StatusCode: statusCode}, nil
